@@ -166,6 +166,13 @@ def predicted_modes(M, C):
     return out
 
 
+DIST = {"calls_by_family": {}, "sensitive_by_call": {}, "sensitive_by_thread_mode": {}}
+
+
+def _count(d, k, n=1):
+    d[k] = d.get(k, 0) + n
+
+
 def analyse(M, res, predicted, pmodes=None):
     """-> (violations, unpredicted, ncalls, nsens)"""
     viol, unpred = [], []
@@ -177,6 +184,8 @@ def analyse(M, res, predicted, pmodes=None):
             if mk >= 0 and not detail.startswith("END"):
                 marks[mk] = detail
                 ncalls += 1
+                fam = detail.split(" ")[0]
+                _count(DIST["calls_by_family"], fam.split("/")[0] + "/" if "/" in fam else "(no prefix)")
             continue
         if mk < 0 or mk not in marks:
             continue
@@ -196,6 +205,8 @@ def analyse(M, res, predicted, pmodes=None):
         if not groups:
             continue
         nsens += 1
+        _count(DIST["sensitive_by_call"], name)
+        _count(DIST["sensitive_by_thread_mode"], res["mode"])
         for g in groups:
             if g & flags == g:
                 viol.append(dict(binding=binding, shape=int(shape), call=name, detail=detail.replace(res["dir"], "<dir>"), flags=flags,
@@ -538,6 +549,7 @@ def run(ctx):
                    "flag_writes": getattr(M, "flag_writes", None), "open_flags_tracked": getattr(M, "mode_tracked", None), "open_flags_untracked": getattr(M, "mode_untracked", None), "may_grow_functions": len(getattr(M, "may_grow", []))},
         "sensitive_calls_observed": total_sens, "unpredicted": unpredicted[:10], "crashes": crashes[:20], "hangs": hangs[:20],
         "flag_scenarios": nscen, "flag_scenario_diffs": len(fdiffs), "escapes": witnesses[:10],
+        "input_distribution": {k: dict(sorted(v.items(), key=lambda kv: -kv[1])[:40]) for k, v in DIST.items() if v},
         "keyword_scenarios": nkw, "keyword_scenario_distribution": kwdist, "keyword_scenario_diffs": len(kwdiffs),
     }
     return ctx.finish("proof", cov, assumptions=[
